@@ -254,6 +254,14 @@ func (fc *FnCtx) instr(ins ssa.Instruction) {
 					fc.debugNames = map[string]Val{}
 				}
 				fc.debugNames[id.Name] = Val{t: v.t, ty: x.X.Type(), tuple: v.tuple}
+				if fc.debugDefBlock == nil {
+					fc.debugDefBlock = map[string]*ssa.BasicBlock{}
+				}
+				if di, ok := x.X.(ssa.Instruction); ok && di.Block() != nil {
+					fc.debugDefBlock[id.Name] = di.Block()
+				} else {
+					delete(fc.debugDefBlock, id.Name)
+				}
 			}
 		}
 	case *ssa.If, *ssa.Jump:
